@@ -647,6 +647,7 @@ def gen_session(rng, kind, malformed):
 def do_session(ctx, kind, ops, specs, keys, lines, impls, cases, label):
     case = dict(layer="session", kind=kind, ops=ops, specs=specs, keys=keys)
     outs, gates = run_session(ctx, kind, ops, specs, keys, case, None)
+    cleanup()            # the session's proposal output directory (one per session: tens of thousands in the thorough tier)
     lines.append(session_line(keys, ops, specs, gates, len(outs), strict_z=(kind == "flow" and FLOW_STRICT_Z)))
     impls.append("|".join(outs))
     cases.append(case)
